@@ -137,7 +137,13 @@ def make_obj(desc):
         rng = Rng(derive("fsim-fl", desc.get("seed", 0)))
         names = all_map_names()
         n = desc.get("n", 5)
-        maps = [make_map(rng.choice(names), rng, rng.below(3)) for _ in range(n)]
+        recipe = []
+        for _ in range(n):
+            if recipe and rng.chance(0.15):
+                recipe.append(recipe[rng.below(len(recipe))])  # a map equal to an earlier one
+            else:
+                recipe.append((rng.choice(names), rng.below(2**40), rng.below(3)))
+        maps = [make_map(nm, Rng(sub), style) for nm, sub, style in recipe]
         return td.FeatureList(maps), "featurelist"
     if k == "featurelist_all":
         maps = [make_map(nm, rng, rng.below(3)) for nm in all_map_names()]
@@ -720,7 +726,7 @@ def exec_history(hist, spec, real_dir=None):
     ck = Checker(real_dir)
     fs = ck.fs
     fs.install()
-    rp = {"property": PROP, "engine": "fsim", "case": {"kind": "history", "hist": hist}}
+    rp = {"property": PROP, "engine": "fsim", "case": {"kind": "history", "hist": hist, "real_fs": bool(spec.get("real_fs"))}}
     try:
         objs = []
         for d in hist["objs"]:
@@ -833,7 +839,22 @@ def exec_history(hist, spec, real_dir=None):
 
 def run_history(spec):
     hist = spec.get("hist") or gen_history(spec["seed"])
-    out = exec_history(hist, spec)
+    if spec.get("real_fs"):
+        # planned pass-through case: the same history on a real scratch directory (no faults),
+        # so that behaviour tied to real file identity - memory-mapped loads, descriptors
+        # kept open by a loaded object - is exercised as well; the in-memory layer hides it
+        import shutil
+        import tempfile
+
+        d = tempfile.mkdtemp(prefix="fsim_real_", dir=os.environ.get("VERIF_SCRATCH", "/tmp"))
+        try:
+            out = exec_history(hist, spec, real_dir=d)
+            out.pop("_unsupported", None)
+            out["stats"]["histories_on_real_fs_by_plan"] = 1
+        finally:
+            shutil.rmtree(d, ignore_errors=True)
+    else:
+        out = exec_history(hist, spec)
     if out.pop("_unsupported", False):
         import shutil
         import tempfile
@@ -1078,7 +1099,7 @@ def plan(tier, seed, args):
     # seeded histories
     nh = args.cases if args.cases is not None else (240 if tier == "quick" else 12000)
     for i in range(nh):
-        cases.append({"kind": "history", "seed": derive(seed, PROP, "hist", i) % (10**9), "restart": (i % (6 if tier == "quick" else 10) == 0)})
+        cases.append({"kind": "history", "seed": derive(seed, PROP, "hist", i) % (10**9), "restart": (i % (6 if tier == "quick" else 10) == 0), "real_fs": (i % 4 == 3)})
     # cheap cases last would starve the long ones; interleave deterministically
     rng.shuffle(cases)
     cases.sort(key=lambda c: 0 if (c["kind"] == "enum" and c["desc"]["obj"] == "model") else 1)
@@ -1105,9 +1126,27 @@ def replay(rp):
     return run_case(rp["case"])
 
 
+def on_crash(spec, status):
+    """the interpreter died (SIGSEGV/SIGBUS/...) inside a save/load history: objects that
+    were loaded from acknowledged files could not be evaluated, or a dump/load took the
+    process down - both break "reload to objects that evaluate identically".  Watchdog and
+    out-of-memory kills stay harness errors."""
+    from cidersim.driver import fatal_signal
+
+    sig = fatal_signal(status)
+    if sig is None or spec.get("kind") != "history":
+        return None
+    key = "history:process-died:signal%d:crash" % sig
+    rp = {"property": PROP, "engine": "fsim", "case": dict(spec), "violation": {"key": key}}
+    return {"key": key, "detail": "worker killed by signal %d while executing history %s" % (sig, json.dumps(spec)[:200]), "replay": rp}
+
+
 def minimise(v):
     """delta-debug history op lists; other case kinds are already minimal (one object)."""
     case = v["replay"].get("case", {})
+    if case.get("kind") == "history" and "hist" not in case and "seed" in case:
+        case = dict(case, hist=gen_history(case["seed"]))
+        v = dict(v, replay=dict(v["replay"], case=case))
     if case.get("kind") != "history" or "hist" not in case:
         return v
     hist = case["hist"]
@@ -1115,8 +1154,10 @@ def minimise(v):
     from cidersim.driver import run_pool
 
     def fails(h):
-        c = {"kind": "history", "hist": h, "seed": case.get("seed", 0), "restart": case.get("restart", False)}
+        c = {"kind": "history", "hist": h, "seed": case.get("seed", 0), "restart": case.get("restart", False), "real_fs": case.get("real_fs", False)}
         r = run_pool([c], run_case, nproc=1, case_timeout=600)[0]
+        if key.endswith(":crash"):
+            return bool(r) and "crashed" in r
         return bool(r) and any(x["key"] == key for x in r.get("violations", []))
 
     ops = list(hist["ops"])
